@@ -313,6 +313,22 @@ def step (d : Drv) (cmd : List Sexp) : Drv × String :=
         let d := if d.f04.contains ln || d.f04.contains rn then { d with f04 := n :: d.f04 } else d
         (d.setDirect n dv).report n (if res.isSame then "same" else "new") (.ok (res.get l))
     | _, _, _, _, _ => (d, "bad-ref")
+  -- (joinp rN rL rR PRED (opts ...)): Join(pred).partial(rR).apply(rL, <every apply option>)
+  | [atom "joinp", atom n, atom ln, atom rn, px, ox] =>
+    match d.rel? ln, d.rel? rn, decPred d.env px, decOpts d ox with
+    | some l, some r, some p, some o =>
+      match l.joinOpts d.store r p o with
+      | .error e => (d, errLine e)
+      | .ok res =>
+        let dv : Option (Cols × List Row × Bool) :=
+          match d.direct? ln, d.direct? rn with
+          | some (lc, lr, lk), some (rc, rr, rk) =>
+            let common := Cols.keys (Cols.inter lc rc)
+            some (lc.union rc, joinRows common p lr rr, lk && rk)
+          | _, _ => none
+        let d := if d.f04.contains ln || d.f04.contains rn then { d with f04 := n :: d.f04 } else d
+        (d.setDirect n dv).report n (if res.isSame then "same" else "new") (.ok (res.get l))
+    | _, _, _, _ => (d, "bad-ref")
   -- (joinon rN rL rR (COLS) PRED bt tr): join with explicit common columns
   | [atom "joinon", atom n, atom ln, atom rn, list cs, px, atom bt, atom tr] =>
     match d.rel? ln, d.rel? rn, decCols d.env cs, decPred d.env px, decBool bt, decBool tr with
